@@ -117,7 +117,9 @@ impl<'a> PeView<'a> {
 
 		// Copy the section image data
 		for section in self.section_headers() {
-			let dest = vec.get_mut(section.PointerToRawData as usize..u32::wrapping_add(section.PointerToRawData, section.SizeOfRawData) as usize);
+			// The file size is clamped to the image size, keep the part of the raw data which still fits
+			let dest_end = cmp::min(u32::wrapping_add(section.PointerToRawData, section.SizeOfRawData) as usize, vec.len());
+			let dest = vec.get_mut(section.PointerToRawData as usize..dest_end);
 			let src = image.get(section.VirtualAddress as usize..u32::wrapping_add(section.VirtualAddress, section.VirtualSize) as usize);
 			// Skip invalid sections...
 			if let (Some(dest), Some(src)) = (dest, src) {
